@@ -10,10 +10,18 @@ import (
 
 // the numbers of the pipes in the model: pa..pd never match a partition, pf forwards; "s" is the name whose progress file
 // pipe<name>.dat is pipes.dat (reg_twin in model/Persist.v is 5)
-var pipeNames = []string{"pa", "pb", "pc", "pd", fwdPipe, "s"}
+var pipeNames = []string{"pa", "pb", "pc", "pd", fwdPipe, "s",
+	"PA", "P A", "x/y", "ÿ☃", "", "../up", "n" + strings.Repeat("n", 199), "P F"}
 
-// idlePool: the names for pipes that never match a partition
-var idlePool = []string{"pa", "pb", "pc", "pd", "s"}
+// idlePool: the names for pipes that never match a partition (simple names, the registry's twin "s", a name that differs
+// from another in case only, names with a blank, a slash, non-ASCII letters, the empty name, a path that climbs, 200 bytes)
+var idlePool = []string{"pa", "pb", "pc", "pd", "s", "PA", "P A", "x/y", "ÿ☃", "", "../up", "n" + strings.Repeat("n", 199)}
+
+// lqlPool: names the LQL statement CREATE PIPE <name> can carry (stream real)
+var lqlPool = []string{"pa", "pb", "pc", "pd", "s", "PA"}
+
+// fwdPool: names of the forwarding pipe (its progress file is pipe<escaped name>.dat)
+var fwdPool = []string{fwdPipe, fwdPipe, "s", "x/y", "P F"}
 
 func pipeIndex(n string) int {
 	for i, p := range pipeNames {
@@ -26,11 +34,51 @@ func pipeIndex(n string) int {
 
 // ---------------------------------------------------------------- generator
 
+// tearPoints: where a file is cut: n per mille of its length (0..999), 1000+b = after b bytes, 2000+b = b bytes before its
+// end (always a proper prefix: see tornPrefix)
+var tearPoints = []int{0, 1, 250, 500, 900, 999, 1001, 1002, 1017, 2001, 2002, 2009}
+
+// tsBases: what is added to every timestamp of a scenario (the generators count up from 10): small positive numbers;
+// numbers around zero (the time index uses "MaxTs > 0" for "known"); negative ones; today's nanoseconds; both ends of int64
+var tsBases = []int64{0, 0, 0, 0, -37, -1000003, 1600000000000000000, 9223372036854775807 - 100000, -9223372036854775808 + 100000}
+
+// restyle: the dimensions every generator shares, chosen per scenario: the base of the timestamps, ties (a write whose
+// first two events carry the same timestamp), the shape of the partitions' tags, a small chunk size (many chunks per
+// partition)
+func restyle(sc *Scenario, r *Rng) {
+	base := tsBases[r.Intn(len(tsBases))]
+	ties := r.Chance(1, 6)
+	for si := range sc.Sessions {
+		for ti := range sc.Sessions[si].Steps {
+			st := &sc.Sessions[si].Steps[ti]
+			if len(st.Ts) >= 2 && ties && sc.Kind != "fwd" {
+				st.Ts[1] = st.Ts[0]
+			}
+			for i := range st.Ts {
+				st.Ts[i] += base
+			}
+		}
+	}
+	sc.Range[0] += base
+	sc.Range[1] += base
+	sc.TagStyle = r.PickInt(0, 0, 0, 1, 2, 3, 4)
+	if sc.Kind == "gen" && r.Chance(1, 5) {
+		sc.Chunk = r.PickInt(300, 1000, 4000) // bytes: a chunk takes a handful of events
+		// a chunk that is full is flushed when the writer moves on: a crash then loses the unflushed tail of the LAST chunk
+		// only, which the model (one buffer per partition) does not tell: with many chunks a crash comes after a flush
+		for si := range sc.Sessions {
+			if sc.Sessions[si].End != "stop" {
+				sc.Sessions[si].Steps = append(sc.Sessions[si].Steps, Step{Op: "sync"})
+			}
+		}
+	}
+}
+
 // genFwd: a pipe from partition 0 to its destination partition (the last one), graceful restarts only: rounds of "flush,
 // write to the source, wait for the pipe to catch up with what is flushed"; the destination must hold every flushed
 // source event exactly once, also after the pipe resumed from its persisted progress
 func genFwd(r *Rng) Scenario {
-	sc := Scenario{Kind: "fwd", NParts: 2, Pipe: r.PickStr(fwdPipe, fwdPipe, "s")}
+	sc := Scenario{Kind: "fwd", NParts: 2, Pipe: r.PickStr(fwdPool...)}
 	nsess := r.PickInt(2, 2, 3)
 	var next int64
 	var all []int64
@@ -57,7 +105,7 @@ func genFwd(r *Rng) Scenario {
 			ss.End = "kill"
 		} else if r.Chance(1, 3) {
 			// a crash inside the in-place rewrite of the pipe's progress file (as left by its last save)
-			ss.Surgery = []Surgery{{Kind: "progress-torn", Name: sc.Pipe, K: r.PickInt(0, 1, 250, 500, 900, 999)}}
+			ss.Surgery = []Surgery{{Kind: "progress-torn", Name: sc.Pipe, K: r.PickInt(tearPoints...)}}
 		}
 		sc.Sessions = append(sc.Sessions, ss)
 	}
@@ -107,13 +155,13 @@ func genReal(r *Rng) Scenario {
 					ss.Steps = append(ss.Steps, Step{Op: "sync"})
 				}
 			case x < 85:
-				n := r.PickStr(idlePool...)
+				n := r.PickStr(lqlPool...)
 				if !exists[n] {
 					exists[n] = true
 					ss.Steps = append(ss.Steps, Step{Op: "pipe", Name: n})
 				}
 			default:
-				for _, n := range idlePool {
+				for _, n := range lqlPool {
 					if exists[n] {
 						delete(exists, n)
 						ss.Steps = append(ss.Steps, Step{Op: "delpipe", Name: n})
@@ -139,6 +187,12 @@ func genReal(r *Rng) Scenario {
 }
 
 func genScenario(r *Rng) Scenario {
+	sc := genShape(r)
+	restyle(&sc, r)
+	return sc
+}
+
+func genShape(r *Rng) Scenario {
 	if r.Chance(1, 12) {
 		return genFwd(r)
 	}
@@ -157,7 +211,7 @@ func genScenario(r *Rng) Scenario {
 		case x < 32:
 			ss.End = "kill"
 		case x < 45:
-			ss.End, ss.EndK = "crash-stop", r.PickInt(0, 1, 250, 500, 900, 999)
+			ss.End, ss.EndK = "crash-stop", r.PickInt(tearPoints...)
 		case x < 53:
 			ss.End, ss.EndK = "crash-create", r.PickInt(1, 5, 15, 25, 35)
 		}
@@ -170,7 +224,7 @@ func genScenario(r *Rng) Scenario {
 			if prev.End != "stop" {
 				prev.Steps = append(prev.Steps, Step{Op: "sync"})
 			} else if len(prev.Surgery) == 0 && r.Chance(2, 3) {
-				prev.Surgery = []Surgery{{Kind: r.PickStr("cindex-drop", "cindex-torn"), K: r.PickInt(0, 250, 500, 900)}}
+				prev.Surgery = []Surgery{{Kind: r.PickStr("cindex-drop", "cindex-torn"), K: r.PickInt(tearPoints...)}}
 			}
 			p := r.Intn(sc.NParts)
 			for q := 0; q < sc.NParts; q++ {
@@ -184,9 +238,29 @@ func genScenario(r *Rng) Scenario {
 			written[p] = true
 			ss.Steps = append(ss.Steps, Step{Op: "write", Part: p, Ts: ts}, Step{Op: "sync"})
 		}
-		nsteps := r.Range(1, 6)
+		nsteps := r.Range(0, 6) // 0: the server is started and stopped (or killed) at once
 		for k := 0; k < nsteps; k++ {
 			x := r.Intn(100)
+			if r.Chance(1, 20) {
+				// the same request again, requests about what is not there: a pipe that exists is created, a pipe or a partition
+				// that does not exist is removed, nothing is flushed twice (none of it may change anything)
+				switch r.Intn(4) {
+				case 0:
+					ss.Steps = append(ss.Steps, Step{Op: "pipe", Name: r.PickStr(idlePool...)})
+					exists[ss.Steps[len(ss.Steps)-1].Name] = true
+				case 1:
+					n := r.PickStr(idlePool...)
+					delete(exists, n)
+					ss.Steps = append(ss.Steps, Step{Op: "delpipe", Name: n})
+				case 2:
+					p := r.Intn(sc.NParts)
+					written[p] = false
+					ss.Steps = append(ss.Steps, Step{Op: "drop", Part: p})
+				default:
+					ss.Steps = append(ss.Steps, Step{Op: "sync"}, Step{Op: "sync"})
+				}
+				continue
+			}
 			switch {
 			case x < 6:
 				var have []int
@@ -239,8 +313,12 @@ func genScenario(r *Rng) Scenario {
 			kinds := []string{"tindex-torn", "tindex-torn", "drop-window", "cindex-drop", "cindex-torn", "cindex-stale", "cindex-stale", "tidx-drop", "tidx-short", "tidx-zero"}
 			n := r.PickInt(1, 1, 1, 2)
 			for i := 0; i < n; i++ {
-				ss.Surgery = append(ss.Surgery, Surgery{Kind: kinds[r.Intn(len(kinds))], K: r.PickInt(0, 1, 250, 500, 900, 999), Part: r.Intn(sc.NParts)})
+				ss.Surgery = append(ss.Surgery, Surgery{Kind: kinds[r.Intn(len(kinds))], K: r.PickInt(tearPoints...), Part: r.Intn(sc.NParts)})
 			}
+		}
+		if ss.End != "stop" && r.Chance(1, 6) {
+			// a second crash right after the first: the start that follows dies inside the tag-index save
+			ss.Surgery = append(ss.Surgery, Surgery{Kind: "tindex-torn", K: r.PickInt(tearPoints...)})
 		}
 		// (the pipe definitions survive a crash: the generator's picture of which pipes exist stays as it is)
 		sc.Sessions = append(sc.Sessions, ss)
@@ -260,10 +338,96 @@ func genScenario(r *Rng) Scenario {
 	return sc
 }
 
+// seq: n timestamps from..., step apart
+func seq(from int64, n int, step int64) []int64 {
+	ts := make([]int64, n)
+	for i := range ts {
+		ts[i] = from + int64(i)*step
+	}
+	return ts
+}
+
+// thoroughCorpus: the fixed cases that are too slow for the quick tier: a chunk of more events than the time index tolerates
+// as a gap (5000); every cut of the files a crash can tear - the tag index's save at the end of Init (the process dies after b
+// bytes, b = 0..), the pipe's progress file and the time-index snapshot (every prefix)
+func thoroughCorpus() []Scenario {
+	w := func(p int, ts ...int64) Step { return Step{Op: "write", Part: p, Ts: ts} }
+	sy := Step{Op: "sync"}
+	res := []Scenario{
+		{Kind: "corpus", NParts: 1, Range: [2]int64{26005, 26095}, Sessions: []Session{{Steps: []Step{w(0, seq(10, 5300, 10)...), sy}, End: "stop"}, {Steps: []Step{w(0, 53100), sy}, End: "stop", Surgery: []Surgery{{Kind: "cindex-drop"}}}, {Blind: true, Steps: []Step{w(0, 53200), sy}, End: "stop"}}},
+	}
+	for b := 0; b < 90; b++ {
+		res = append(res, Scenario{Kind: "corpus", NParts: 2, Range: [2]int64{15, 25}, Sessions: []Session{{Steps: []Step{w(0, 10, 20, 30), w(1, 5), sy}, End: "stop", Surgery: []Surgery{{Kind: "tindex-torn", K: 1000 + b}}}, {Steps: []Step{w(1, 15)}, End: "stop"}}})
+	}
+	for b := 0; b < 150; b++ {
+		res = append(res, Scenario{Kind: "fwd", NParts: 2, Range: [2]int64{15, 25}, Sessions: []Session{{Steps: []Step{{Op: "fwdpipe", Name: fwdPipe}, {Op: "round", Ts: []int64{10, 20}}, {Op: "round", Ts: []int64{30}}}, End: "stop", Surgery: []Surgery{{Kind: "progress-torn", Name: fwdPipe, K: 1000 + b}}}, {Steps: []Step{{Op: "round", Ts: []int64{40}}}, End: "stop"}}})
+	}
+	for b := 0; b < 240; b += 3 {
+		res = append(res, Scenario{Kind: "corpus", NParts: 2, Range: [2]int64{15, 25}, Sessions: []Session{{Steps: []Step{w(0, 10, 20, 30), w(1, 5), sy}, End: "stop", Surgery: []Surgery{{Kind: "cindex-torn", K: 1000 + b}}}, {Blind: true, Steps: []Step{w(0, 40), sy}, End: "stop"}}})
+	}
+	return res
+}
+
 func corpus() []Scenario {
 	w := func(p int, ts ...int64) Step { return Step{Op: "write", Part: p, Ts: ts} }
 	sy := Step{Op: "sync"}
-	return []Scenario{
+	const maxI, minI = int64(9223372036854775807), int64(-9223372036854775808)
+	edge := []Scenario{
+		// timestamps below zero, across zero, zero itself (the time index takes "MaxTs > 0" for "known"): restart with the snapshot,
+		// without it, a blind write after its loss, SIGKILL
+		{Kind: "corpus", NParts: 2, Range: [2]int64{-25, 5}, Sessions: []Session{{Steps: []Step{w(0, -30, -20, -10), w(1, -3, 0, 3), sy, w(0, 0)}, End: "stop"}, {Steps: []Step{w(0, 10), sy}, End: "stop", Surgery: []Surgery{{Kind: "cindex-drop"}}}, {Blind: true, Steps: []Step{w(0, 20), sy}, End: "kill"}, {Steps: []Step{w(1, 6)}, End: "stop"}}},
+		{Kind: "corpus", NParts: 1, Range: [2]int64{-2500, -1500}, Sessions: []Session{{Steps: []Step{w(0, -3000, -2000, -1000), sy}, End: "stop"}, {Steps: []Step{w(0, -900)}, End: "stop", Surgery: []Surgery{{Kind: "cindex-torn", K: 500}}}, {Blind: true, Steps: []Step{w(0, -800), sy}, End: "stop"}}},
+		// both ends of int64, today's nanoseconds
+		{Kind: "corpus", NParts: 2, Range: [2]int64{minI + 5, minI + 25}, Sessions: []Session{{Steps: []Step{w(0, minI, minI+10, minI+20), w(1, maxI-20, maxI-10, maxI), sy}, End: "stop"}, {Steps: []Step{w(0, minI+30), w(1, maxI)}, End: "kill"}, {Steps: []Step{w(0, minI+40), sy}, End: "stop", Surgery: []Surgery{{Kind: "cindex-drop"}}}}},
+		{Kind: "corpus", NParts: 1, Range: [2]int64{maxI - 15, maxI - 5}, Sessions: []Session{{Steps: []Step{w(0, maxI-20, maxI-10, maxI), sy}, End: "stop"}, {Steps: []Step{}, End: "stop"}}},
+		{Kind: "corpus", NParts: 1, Range: [2]int64{1600000000000000015, 1600000000000000025}, Sessions: []Session{{Steps: []Step{w(0, 1600000000000000010, 1600000000000000020, 1600000000000000030)}, End: "stop"}, {Steps: []Step{w(0, 1600000000000000040)}, End: "crash-stop", EndK: 500}}},
+		// ties: events with equal timestamps inside a write and across writes and restarts (the bounds of the probe are not among them)
+		{Kind: "corpus", NParts: 1, Range: [2]int64{15, 35}, Sessions: []Session{{Steps: []Step{w(0, 10, 10, 20, 20), sy, w(0, 20, 30)}, End: "stop"}, {Steps: []Step{w(0, 30, 30, 40)}, End: "stop", Surgery: []Surgery{{Kind: "cindex-drop"}}}}},
+		// many chunks per partition (MaxChunkSize 300 bytes): a graceful stop right after a write that rolled chunks over, SIGKILL
+		// after a flush, the snapshot lost, a partition of several chunks truncated away, a crash between the two effects of a removal
+		{Kind: "corpus", Chunk: 300, NParts: 2, Range: [2]int64{35, 125}, Sessions: []Session{{Steps: []Step{w(0, seq(10, 12, 10)...), w(1, seq(11, 9, 10)...)}, End: "stop"}, {Steps: []Step{w(0, seq(130, 8, 10)...), sy, w(0, 300)}, End: "kill"}, {Steps: []Step{w(0, 310), sy}, End: "stop", Surgery: []Surgery{{Kind: "cindex-drop"}}}, {Blind: true, Steps: []Step{w(0, 320), sy, {Op: "drop", Part: 1}}, End: "stop", Surgery: []Surgery{{Kind: "drop-window", Part: 0}}}}},
+		{Kind: "corpus", Chunk: 1000, NParts: 1, Range: [2]int64{95, 405}, Sessions: []Session{{Steps: []Step{w(0, seq(10, 40, 10)...), sy}, End: "crash-stop", EndK: 0}, {Steps: []Step{w(0, seq(500, 40, 10)...)}, End: "stop", Surgery: []Surgery{{Kind: "tidx-zero"}}}, {Steps: []Step{w(0, 1000)}, End: "stop"}}},
+		// more events in a chunk than the sparse time index keeps apart (250), and than it tolerates as a gap (5000): restart,
+		// snapshot lost, blind write, SIGKILL
+		{Kind: "corpus", NParts: 1, Range: [2]int64{2995, 3125}, Sessions: []Session{{Steps: []Step{w(0, seq(10, 600, 10)...)}, End: "stop"}, {Steps: []Step{w(0, seq(6010, 300, 10)...), sy}, End: "stop", Surgery: []Surgery{{Kind: "cindex-drop"}}}, {Blind: true, Steps: []Step{w(0, 9100), sy}, End: "kill"}, {Steps: []Step{w(0, 9200)}, End: "stop"}}},
+		// the shapes of tag lines: a quoted value with a blank, non-ASCII, 300 bytes, a quoted value with = , { } and a backslash:
+		// restart, a crash inside the tag-index save, a crash between the two effects of a removal
+		{Kind: "corpus", TagStyle: 1, NParts: 2, Range: [2]int64{15, 25}, Sessions: []Session{{Steps: []Step{w(0, 10, 20, 30), w(1, 5)}, End: "stop", Surgery: []Surgery{{Kind: "tindex-torn", K: 500}, {Kind: "drop-window", Part: 1}}}, {Steps: []Step{w(1, 15), {Op: "drop", Part: 0}}, End: "kill"}}},
+		{Kind: "corpus", TagStyle: 2, NParts: 2, Range: [2]int64{15, 25}, Sessions: []Session{{Steps: []Step{w(0, 10, 20, 30), w(1, 5)}, End: "stop", Surgery: []Surgery{{Kind: "tindex-torn", K: 2001}}}, {Steps: []Step{w(1, 15), {Op: "drop", Part: 0}}, End: "kill"}}},
+		{Kind: "corpus", TagStyle: 3, NParts: 2, Range: [2]int64{15, 25}, Sessions: []Session{{Steps: []Step{w(0, 10, 20, 30), w(1, 5)}, End: "crash-create", EndK: 5}, {Steps: []Step{w(1, 15), {Op: "drop", Part: 0}}, End: "stop"}}},
+		{Kind: "corpus", TagStyle: 4, NParts: 2, Range: [2]int64{15, 25}, Sessions: []Session{{Steps: []Step{w(0, 10, 20, 30), w(1, 5)}, End: "stop", Surgery: []Surgery{{Kind: "tindex-torn", K: 1017}}}, {Steps: []Step{w(1, 15), {Op: "drop", Part: 0}}, End: "kill"}}},
+		// pipe names: two that differ in case only, a blank, a slash, non-ASCII, the empty name, a path that climbs, 200 bytes:
+		// SIGKILL, deletion, a crash inside the shutdown's save
+		{Kind: "corpus", NParts: 1, Range: [2]int64{15, 25}, Sessions: []Session{{Steps: []Step{{Op: "pipe", Name: "pa"}, {Op: "pipe", Name: "PA"}, {Op: "pipe", Name: "P A"}, {Op: "pipe", Name: "x/y"}, {Op: "pipe", Name: "ÿ☃"}, {Op: "pipe", Name: ""}, {Op: "pipe", Name: "../up"}, {Op: "pipe", Name: idlePool[11]}}, End: "kill"}, {Steps: []Step{{Op: "delpipe", Name: "PA"}, {Op: "delpipe", Name: ""}, {Op: "delpipe", Name: "../up"}}, End: "crash-stop", EndK: 2001}, {Steps: []Step{{Op: "delpipe", Name: "pa"}}, End: "stop"}}},
+		// a forwarding pipe whose name needs escaping in its file name: graceful restarts, its progress file torn
+		{Kind: "fwd", Pipe: "x/y", NParts: 2, Range: [2]int64{15, 25}, Sessions: []Session{{Steps: []Step{{Op: "fwdpipe", Name: "x/y"}, {Op: "round", Ts: []int64{10, 20}}, {Op: "round", Ts: []int64{30}}}, End: "stop"}, {Steps: []Step{{Op: "round", Ts: []int64{40}}}, End: "stop", Surgery: []Surgery{{Kind: "progress-torn", Name: "x/y", K: 2001}}}, {Steps: []Step{{Op: "round", Ts: []int64{50}}, {Op: "round", Ts: []int64{60}}}, End: "stop"}}},
+		// nothing happens between a start and its end, again and again; the same request twice; requests about what is not there
+		{Kind: "corpus", NParts: 2, Range: [2]int64{15, 25}, Sessions: []Session{{Steps: []Step{w(0, 10, 20, 30), {Op: "pipe", Name: "pa"}}, End: "stop"}, {Steps: []Step{}, End: "stop"}, {Steps: []Step{}, End: "kill"}, {Steps: []Step{}, End: "kill"}, {Steps: []Step{}, End: "crash-stop", EndK: 0}, {Steps: []Step{}, End: "stop", Surgery: []Surgery{{Kind: "tindex-torn", K: 0}, {Kind: "tindex-torn", K: 2001}}}}},
+		{Kind: "corpus", NParts: 2, Range: [2]int64{15, 25}, Sessions: []Session{{Steps: []Step{{Op: "pipe", Name: "pa"}, {Op: "pipe", Name: "pa"}, {Op: "delpipe", Name: "pb"}, {Op: "drop", Part: 1}, w(0, 10, 20), sy, sy, {Op: "drop", Part: 0}, {Op: "drop", Part: 0}, {Op: "delpipe", Name: "pa"}, {Op: "delpipe", Name: "pa"}}, End: "kill"}, {Steps: []Step{w(0, 30)}, End: "stop"}}},
+	}
+	wide := Scenario{Kind: "corpus", NParts: 30, Range: [2]int64{15, 25}}
+	{
+		var s1, s2 []Step
+		for p := 0; p < 30; p++ {
+			s1 = append(s1, w(p, 10+int64(p), 20+int64(p)))
+			if p%3 == 0 {
+				s2 = append(s2, Step{Op: "drop", Part: p})
+			} else {
+				s2 = append(s2, w(p, 40+int64(p)))
+			}
+		}
+		wide.Sessions = []Session{{Steps: s1, End: "stop", Surgery: []Surgery{{Kind: "tindex-torn", K: 500}, {Kind: "tindex-torn", K: 2001}, {Kind: "drop-window", Part: 7}}}, {Steps: s2, End: "kill"}, {Steps: []Step{w(0, 50)}, End: "stop"}}
+	}
+	edge = append(edge, wide,
+		// the snapshot is lost and the first request is a write to a chunk that holds exactly ONE event (onWrite: "firstRec > 0")
+		Scenario{Kind: "corpus", NParts: 1, Range: [2]int64{5, 15}, Sessions: []Session{{Steps: []Step{w(0, 10), sy}, End: "stop", Surgery: []Surgery{{Kind: "cindex-drop"}}}, {Blind: true, Steps: []Step{w(0, 20), sy}, End: "stop"}}},
+		// a directory of the previous version (definitions in pipes.dat, no registry.dat): they are read and moved at once - the
+		// pipe "s" (which has no positions there: pipes.dat holds the definitions) forwards, its positions go to pipes.dat, SIGKILL:
+		// the server starts, the definitions are there
+		Scenario{Kind: "fwd", Pipe: "s", NParts: 2, Range: [2]int64{15, 25}, Sessions: []Session{{Steps: []Step{{Op: "fwdpipe", Name: "s"}, {Op: "round", Ts: []int64{10, 20}}}, End: "stop", Surgery: []Surgery{{Kind: "progress-torn", Name: "s", K: 0}, {Kind: "registry-old-name"}}}, {Steps: []Step{{Op: "round", Ts: []int64{30}}, {Op: "round", Ts: []int64{40}}}, End: "kill"}}},
+		Scenario{Kind: "corpus", NParts: 1, Range: [2]int64{15, 25}, Sessions: []Session{{Steps: []Step{w(0, 10), {Op: "pipe", Name: "pa"}, {Op: "pipe", Name: "PA"}}, End: "stop", Surgery: []Surgery{{Kind: "registry-old-name"}}}, {Steps: []Step{{Op: "delpipe", Name: "pa"}}, End: "kill"}}},
+	)
+	return append(edge, []Scenario{
 		// C07_clean (C07_clean_nosync_refuted): acknowledged, then a graceful stop at once: without the sync at shutdown 40 and the whole of partition 1 are gone
 		{Kind: "corpus", NParts: 2, Range: [2]int64{15, 25}, Sessions: []Session{{Steps: []Step{w(0, 10, 20, 30), sy, w(0, 40), w(1, 11)}, End: "stop"}}},
 		// C07_clean_quiescent: everything flushed before the stop: nothing changes
@@ -332,7 +496,7 @@ func corpus() []Scenario {
 		{Kind: "corpus", NParts: 1, Range: [2]int64{15, 25}, Sessions: []Session{{Steps: []Step{w(0, 10, 20, 30), sy}, End: "stop", Surgery: []Surgery{{Kind: "cindex-torn", K: 500}}}}},
 		// SIGKILL after a flush: flushed events and partitions survive
 		{Kind: "corpus", NParts: 2, Range: [2]int64{15, 25}, Sessions: []Session{{Steps: []Step{w(0, 10, 20, 30), sy, w(1, 11)}, End: "kill"}, {Steps: []Step{w(1, 21), sy}, End: "kill"}}},
-	}
+	}...)
 }
 
 // ---------------------------------------------------------------- Gallina
@@ -400,8 +564,8 @@ func gSession(s Session, np int, ensure bool, fwd string) string {
 		sg = append(sg, GApp("GPTorn", GNat(s.EndK))) // the crash inside the pipes save of the shutdown sequence; nothing else of it ran
 	}
 	for _, x := range s.Surgery {
-		if strings.HasPrefix(x.Kind, "tidx-") {
-			continue // the tree files of the time index are not in the model: nothing observable may depend on them
+		if strings.HasPrefix(x.Kind, "tidx-") || x.Kind == "registry-old-name" {
+			continue // not in the model (the tree files of the time index; the name of the definitions' file): nothing observable may depend on them
 		}
 		sg = append(sg, gSurgery(x))
 	}
@@ -451,6 +615,11 @@ func run(c *Ctx) error {
 	} else {
 		for _, sc := range corpus() {
 			scs, streams = append(scs, sc), append(streams, "corpus")
+		}
+		if c.Tier == "thorough" {
+			for _, sc := range thoroughCorpus() {
+				scs, streams = append(scs, sc), append(streams, "corpus")
+			}
 		}
 		root := seededRng(c.Seed)
 		n := c.N(500)
@@ -513,7 +682,54 @@ func mkCase(sc *Scenario, stream string) (*Case, error) {
 			}
 		}
 	}
-	tags = append(tags, "kind:"+sc.Kind)
+	tags = append(tags, "kind:"+sc.Kind, fmt.Sprintf("tagstyle:%d", sc.TagStyle))
+	if sc.Chunk > 0 {
+		tags = append(tags, "many-chunks")
+	}
+	lo, hi, tie, big, empty := int64(1<<62), int64(-1<<62), false, false, false
+	for _, s := range sc.Sessions {
+		if len(s.Steps) == 0 {
+			empty = true
+		}
+		for _, st := range s.Steps {
+			for i, t := range st.Ts {
+				if t < lo {
+					lo = t
+				}
+				if t > hi {
+					hi = t
+				}
+				if i > 0 && st.Ts[i-1] == t {
+					tie = true
+				}
+			}
+			if len(st.Ts) > 250 {
+				big = true
+			}
+		}
+	}
+	switch {
+	case lo > hi:
+	case lo < -(1<<61) || hi > 1<<61:
+		tags = append(tags, "ts:int64-end")
+	case hi > 1<<50:
+		tags = append(tags, "ts:nanoseconds")
+	case hi <= 0:
+		tags = append(tags, "ts:negative")
+	case lo <= 0:
+		tags = append(tags, "ts:around-zero")
+	default:
+		tags = append(tags, "ts:small-positive")
+	}
+	if tie {
+		tags = append(tags, "ts:ties")
+	}
+	if big {
+		tags = append(tags, "write:more-than-250-events")
+	}
+	if empty {
+		tags = append(tags, "session:no-steps")
+	}
 	if sc.Ensure {
 		tags = append(tags, "configured-pipe")
 	}
